@@ -70,6 +70,27 @@ CHECKS = {
         "note": "callbacks in the correspondence are finite lookup tables; axioms: none.",
         "design": "5/C06",
     },
+    "C07": {
+        "text": ("Theorems: the ContextVar-threaded evaluator equals an evaluator with explicit (inherited limit, depth, "
+                 "path probability) parameters, nested calls running at depth+1 with probability * count/total over all "
+                 "sources and the enclosing limit inherited; the sentinel is returned exactly when depth >= L resp. "
+                 "probability <= e; limit 0 gives the sentinel alone, the default is 1, -1 is unbounded, illegal limits "
+                 "(z < -1, q <= 0, q >= 1, non-numbers) raise before evaluation; below the cut-off the result is the "
+                 "aggregate (exact mixture by C06) of the expanded and sentinel branches. Correspondence on random "
+                 "recursive mechanics with limits on the boundary of reachable branch probabilities."),
+        "note": "PARTIAL: the real interpreter stack limit (RecursionError) is modelled by fuel and not exercised; for heterogeneous pool sources a 'branch' is one yielded (roll, count) pair (see DESIGN interpretation note); axioms: none.",
+        "design": "5/C07",
+    },
+    "C08": {
+        "text": ("Theorems: explode(h, pred, n) is the lowest-terms reduction of the literal n-bounded re-roll recursion "
+                 "(errors included), default limit 1, limit 0 and the empty histogram give back h, H.substitute is the "
+                 "same recursion with coalesce per expanded branch, both limits rejected, the deprecated H.explode equals "
+                 "explode with the default predicate unless the histogram has exactly one face, where it returns h "
+                 "(refuted statement C08_deprecated_spelling_refuted_on_single_face = known finding K1). Correspondence "
+                 "over histograms x predicates x limits x expand/coalesce tables and the three spellings."),
+        "note": "PARTIAL: stack limit modelled by fuel; inf*outcome of the single-face special case is outside the rational domain; axioms: none.",
+        "design": "5/C08",
+    },
     "C09": {
         "text": ("Theorems: order_stat_for_n_at_pos has exactly the brute-force counts of the value at that position "
                  "(the same sum C03 proves for (n@P(h)).h(pos)); summed over positions n*h[z]*total^(n-1); "
